@@ -154,9 +154,9 @@ theorem step_weff {c : Cfg} {s s' : St} {e : Env} {op : Op} (h : step c s e op =
     obtain ⟨b1, _, h⟩ := bind_eq_ok h
     obtain ⟨b2, _, h⟩ := bind_eq_ok h
     obtain ⟨_, _, h⟩ := bind_eq_ok h
-    obtain ⟨b3, _, h⟩ := bind_eq_ok h
     obtain ⟨lp, _, h⟩ := bind_eq_ok h
     obtain ⟨_, _, h⟩ := bind_eq_ok h
+    obtain ⟨b3, _, h⟩ := bind_eq_ok h
     obtain ⟨b4, _, h⟩ := bind_eq_ok h
     obtain ⟨_, _, h⟩ := bind_eq_ok h
     obtain ⟨b5, _, h⟩ := bind_eq_ok h
